@@ -621,6 +621,9 @@ func (s *Server) buildArguments(ctx context.Context, params any, method Method) 
 		}
 
 		for i, param := range paramsList {
+			if err := checkNotNull(param, method.Params[i], handlerType.In(i+addContext)); err != nil {
+				return nil, err
+			}
 			v, err := s.parseParam(param, handlerType.In(i+addContext))
 			if err != nil {
 				return nil, err
@@ -637,7 +640,10 @@ func (s *Server) buildArguments(ctx context.Context, params any, method Method) 
 		for i, configuredParam := range method.Params {
 			var v reflect.Value
 			if param, found := paramsMap[configuredParam.Name]; found {
-				var err error
+				err := checkNotNull(param, configuredParam, handlerType.In(i+addContext))
+				if err != nil {
+					return nil, err
+				}
 				v, err = s.parseParam(param, handlerType.In(i+addContext))
 				if err != nil {
 					return nil, err
@@ -669,6 +675,15 @@ func (s *Server) buildArguments(ctx context.Context, params any, method Method) 
 		return nil, errors.New("impossible param type: check request.isSane")
 	}
 	return args, nil
+}
+
+// checkNotNull rejects a JSON null given for a non-optional parameter that the handler takes by
+// pointer: it would decode to a nil pointer, which handlers of required parameters dereference.
+func checkNotNull(param any, configuredParam Parameter, t reflect.Type) error {
+	if param == nil && !configuredParam.Optional && t.Kind() == reflect.Pointer {
+		return errors.New("null value for non-optional param: " + configuredParam.Name)
+	}
+	return nil
 }
 
 func (s *Server) parseParam(param any, t reflect.Type) (reflect.Value, error) {
